@@ -13,8 +13,11 @@
      (here: Err BadInput; walk_never_aborts shows the callback never does that).
    * a symlink whose target is a directory is read (as if it were a directory at the symlink's path) iff
      conf.Follow and the call returned nil and it does not lead back to one of its ancestors / the root
-     (loop protection; trusted: a SymDir that fastwalk refuses to enter is given to the model with an
-     empty target).
+     (loop protection, fastwalk.shouldTraverse: the target is compared, by os.SameFile, with filepath.Dir^k of
+     the joined path, i.e. with the link's textual ancestors, the root and the lexical parents of the root
+     string down to "." or "/"; a SymDir that fastwalk refuses to enter is given to the model with an empty
+     target.  This rule is spec/WalkLinkSpec.v `unfold` - the trees of a run are computed by it, op 1906 -
+     and theorem walk_eq_listing_cyclic ties the model to the listing of that finite unfolding).
    * errors of the file system (unreadable directory, vanished entry, killed reader) are outside the model.
    os.PathSeparator = '/', MSYSTEM unset. *)
 From Fzf Require Import Prelude WalkSpec.
